@@ -56,9 +56,9 @@ def run(rep, tier, seed, proof_broken=False):
             log = d.server.state.take_log()
             probs = d.compare_trees()
             for x in d.diffs[:3]:
-                fails.append(dict(what="`%s` answers differently on S3 (prefix %r, page size %d, layout %s)" % (x["line"], prefix, ps, layout[0]), fs=x["fs"], s3=x["s3"], history=d.hist[-25:]))
+                fails.append(dict(what="`%s` answers differently on S3 (prefix %r, page size %d, layout %s)" % (x["line"], prefix, ps, layout[0]), fs=x["fs"], s3=x["s3"], history=d.hist[-25:], full_history=list(d.hist)))
             for p in probs[:2]:
-                fails.append(dict(what=p + " (prefix %r, page size %d)" % (prefix, ps), history=d.hist[-25:]))
+                fails.append(dict(what=p + " (prefix %r, page size %d)" % (prefix, ps), history=d.hist[-25:], full_history=list(d.hist)))
             # T: listing requests of the read-only phase vs the model's page count; keys vs keyOf
             dis += listing_check(rep, d, log, ps)
             dis += key_check(rep, d, prefix)
